@@ -125,6 +125,9 @@ type QFSpec struct {
 	Threshold int
 	// NeedServer >= 0: quorum additionally requires a reply of this server index.
 	NeedServer int
+	// Exactly: quorum when the reply set has exactly Threshold entries (a non-monotone quorum
+	// function: it reports a quorum for the Threshold-th reply and for no later one)
+	Exactly bool `json:",omitempty"`
 	// Slow: the quorum function passes a scheduler gate before returning.
 	Slow bool
 	// StallMs: the first invocation does not return before this much (simulated) time has passed
